@@ -18,6 +18,7 @@ import (
 	"go/token"
 	"go/types"
 	"math/big"
+	"os"
 	"sort"
 	"strings"
 )
@@ -29,6 +30,21 @@ type oBool bool
 type oInt int64
 type oNil struct{}
 type oTop struct{ why string }
+
+// abortedTop is the result of a repository function whose interpretation stopped part-way: besides
+// the unknown value, the callee's effects on shared state are unknown, so a caller that discards
+// the result must not carry on as if the callee had run (see the ExprStmt and `_ =` cases).
+func abortedTop(why string) oTop {
+	if !strings.HasPrefix(why, abortMark) {
+		why = abortMark + why
+	}
+	return oTop{why}
+}
+
+const abortMark = "↯ "
+
+func poisons(why string) bool { return strings.HasPrefix(why, abortMark) }
+
 type oStruct struct {
 	typ    types.Type
 	fields map[string]oval
@@ -141,7 +157,12 @@ func (e *oEnv) define(o types.Object, v oval) { e.vars[o] = &v }
 type oInterp struct {
 	p        *Prog
 	maxDepth int
-	steps    int
+	// mapReverse makes `range` over a map visit the entries in the reverse of insertion order: a
+	// driver that runs a scenario under both orders and compares the outcomes decides whether the
+	// code depends on Go's unspecified map iteration order; mapRanges counts such loops (≥2 entries)
+	mapReverse bool
+	mapRanges  int
+	steps      int
 	// oracle, when set, answers calls that cannot be interpreted because an argument
 	// is an opaque object (a polygon of unknown shape): it is asked for a value of the
 	// call's single bool / small-enum result.  The driver enumerates every answer.
@@ -423,10 +444,27 @@ func (fr *oFrame) stmt(s ast.Stmt) oCtl {
 		}
 		return oNormal
 	case *ast.ExprStmt:
-		v := fr.eval(s.X)
-		_ = v
+		ce, isCall := unparen(s.X).(*ast.CallExpr)
+		if !isCall {
+			fr.eval(s.X)
+			if fr.why != "" {
+				return oAbort
+			}
+			return oNormal
+		}
+		vs := fr.call(ce)
 		if fr.why != "" {
 			return oAbort
+		}
+		// a repository function called for its effects that could not be interpreted: its effects
+		// are unknown (calls that leave the repository — logging and the like — are not followed)
+		for _, v := range vs {
+			if t, isTop := v.(oTop); isTop && poisons(t.why) {
+				if os.Getenv("VERIF_TRACE") != "" {
+					fmt.Fprintf(os.Stderr, "TRACE discarded ⊤ at %s: %s\n", fr.it.p.Position(ce.Pos()), t.why)
+				}
+				return fr.abort("%s", t.why)
+			}
 		}
 		return oNormal
 	case *ast.DeclStmt:
@@ -550,6 +588,24 @@ func (fr *oFrame) stmt(s ast.Stmt) oCtl {
 			}
 			fr.defers = append(fr.defers, func() {
 				if _, why := fr.it.Call(fn.f, nil, args, fr.depth+1); why != "" && fr.why == "" {
+					fr.why = why
+				}
+			})
+		case oBound:
+			if fr.it.p.Decl(fn.f) == nil {
+				// a method of a type outside the repository: the model decides when the frame unwinds
+				if fr.it.stub == nil {
+					return fr.abort("defer of external %s", fn.f.FullName())
+				}
+				fr.defers = append(fr.defers, func() {
+					if _, ok := fr.it.stub(fn.f, fn.recv, args); !ok && fr.why == "" {
+						fr.why = "deferred call to " + fn.f.FullName() + " (outside the repo)"
+					}
+				})
+				break
+			}
+			fr.defers = append(fr.defers, func() {
+				if _, why := fr.it.Call(fn.f, recvForMethod(fn.f, fn.recv), args, fr.depth+1); why != "" && fr.why == "" {
 					fr.why = why
 				}
 			})
@@ -739,6 +795,10 @@ func (fr *oFrame) store(l ast.Expr, v oval, define bool) oCtl {
 	switch x := l.(type) {
 	case *ast.Ident:
 		if x.Name == "_" {
+			// a discarded ⊤ is a call whose effects are unknown: do not carry on as if it had run
+			if t, isTop := v.(oTop); isTop && poisons(t.why) {
+				return fr.abort("%s", t.why)
+			}
 			return oNormal
 		}
 		if define {
@@ -850,6 +910,11 @@ func oEqual(a, b oval) (eq bool, ok bool) {
 		if _, ok := b.(oNil); ok {
 			return false, true
 		}
+	case oBound:
+		// function values compare with nil only
+		if _, ok := b.(oNil); ok {
+			return false, true
+		}
 	case oRef:
 		switch y := b.(type) {
 		case oNil:
@@ -910,7 +975,7 @@ func oEqual(a, b oval) (eq bool, ok bool) {
 		switch y := b.(type) {
 		case oSlice:
 			return y.isNil(), true
-		case oHostFunc, oFunc, oFuncRef, oHost, oRef:
+		case oHostFunc, oFunc, oFuncRef, oBound, oHost, oRef:
 			return false, true
 		case oMap:
 			return y.keys == nil, true
@@ -1471,7 +1536,7 @@ func (fr *oFrame) call(call *ast.CallExpr) []oval {
 						if strings.HasPrefix(sub.why, "panic:") && fr.why == "" {
 							fr.why = sub.why // a run-time panic unwinds through the caller
 						}
-						return one(oTop{sub.why})
+						return one(abortedTop(sub.why))
 					}
 					return sub.results
 				}
@@ -1487,6 +1552,26 @@ func (fr *oFrame) call(call *ast.CallExpr) []oval {
 				args = append(args, fr.eval(a))
 			}
 			return hf.fn(args)
+		}
+		// a function value naming a function outside the repository (strconv.ParseFloat stored in a
+		// table, say): ask the model
+		if fref, ok := fv.(oFuncRef); ok && fr.it.p.Decl(fref.f) == nil && fr.it.stub != nil {
+			var args []oval
+			for _, a := range call.Args {
+				args = append(args, fr.eval(a))
+			}
+			if out, ok := fr.it.stub(fref.f, nil, args); ok {
+				return out
+			}
+		}
+		if bd, ok := fv.(oBound); ok && fr.it.p.Decl(bd.f) == nil && fr.it.stub != nil {
+			var args []oval
+			for _, a := range call.Args {
+				args = append(args, fr.eval(a))
+			}
+			if out, ok := fr.it.stub(bd.f, bd.recv, args); ok {
+				return out
+			}
 		}
 		if fref, ok := fv.(oFuncRef); ok && fr.it.p.Decl(fref.f) != nil {
 			sig := fref.f.Type().(*types.Signature)
@@ -1507,9 +1592,10 @@ func (fr *oFrame) call(call *ast.CallExpr) []oval {
 				}
 				out := make([]oval, sig.Results().Len())
 				for i := range out {
-					out[i] = oTop{why}
+					out[i] = abortedTop(why)
 				}
 				if len(out) == 0 {
+					fr.why = why // a void call that could not be interpreted poisons the frame
 					return nil
 				}
 				return out
@@ -1523,6 +1609,29 @@ func (fr *oFrame) call(call *ast.CallExpr) []oval {
 			}
 			return res
 		}
+		if bd, ok := fv.(oBound); ok && fr.it.p.Decl(bd.f) != nil {
+			var args []oval
+			for _, a := range call.Args {
+				args = append(args, fr.rvalue(fr.eval(a)))
+			}
+			res, why := fr.it.Call(bd.f, recvForMethod(bd.f, bd.recv), args, fr.depth+1)
+			if why != "" {
+				if strings.HasPrefix(why, "panic:") && fr.why == "" {
+					fr.why = why
+				}
+				n := bd.f.Type().(*types.Signature).Results().Len()
+				if n == 0 {
+					fr.why = why
+					return nil
+				}
+				out := make([]oval, n)
+				for i := range out {
+					out[i] = abortedTop(why)
+				}
+				return out
+			}
+			return res
+		}
 		if fl, ok := fv.(oFunc); ok {
 			var args []oval
 			for _, a := range call.Args {
@@ -1533,7 +1642,7 @@ func (fr *oFrame) call(call *ast.CallExpr) []oval {
 				if strings.HasPrefix(why, "panic:") && fr.why == "" {
 					fr.why = why
 				}
-				return one(oTop{why})
+				return one(abortedTop(why))
 			}
 			return res
 		}
@@ -1821,7 +1930,7 @@ func (fr *oFrame) call(call *ast.CallExpr) []oval {
 		}
 		out := make([]oval, n)
 		for i := range out {
-			out[i] = oTop{why}
+			out[i] = abortedTop(why)
 		}
 		return out
 	}
@@ -2084,6 +2193,22 @@ func (fr *oFrame) typeSwitch(s *ast.TypeSwitchStmt) oCtl {
 }
 
 // CallFunc invokes a closure value obtained from an interpreted call.
+// CallValue calls a function value of any representation: a closure, a method value, a reference
+// to a declared function, or a host function.
+func (it *oInterp) CallValue(fv oval, args []oval) ([]oval, string) {
+	switch f := fv.(type) {
+	case oFunc:
+		return it.CallFunc(f, args)
+	case oBound:
+		return it.Call(f.f, recvForMethod(f.f, f.recv), args, 1)
+	case oFuncRef:
+		return it.Call(f.f, nil, args, 1)
+	case oHostFunc:
+		return f.fn(args), ""
+	}
+	return nil, "not a function value: " + showVal(fv)
+}
+
 func (it *oInterp) CallFunc(fn oFunc, args []oval) ([]oval, string) {
 	sub := &oFrame{it: it, info: fn.info, env: &oEnv{vars: map[types.Object]*oval{}, parent: fn.env}, depth: 1}
 	ps := paramVars(fn.info, fn.lit.Type)
